@@ -228,3 +228,6 @@ def viewRun {α} [Add α] [Mul α] [Div α] [NatCast α] [OfNat α 0] [OfNat α 
       .ok ⟨e, c.shape⟩
 
 end Sfs
+
+/- Rust functions mirrored in this file beyond those cited above (read by tools/trace_matrix.py):
+   core/src/spectrum.rs: marginalize_axis (one step of marginalize), from_range, from_vec, from_zeros (constructors: `Arr` literals), into_state_unchecked (typestate change only), add_assign; core/src/spectrum/project.rs: from_shape (countOfShape), into_weighted, next (projectIterGo), project_unchecked (projectIter for one source index) -/
